@@ -51,8 +51,14 @@ is_job_invalid_light(IMB_MGR *state, const IMB_CIPHER_MODE cipher_mode, const IM
         case IMB_CIPHER_NULL:
         case IMB_CIPHER_CUSTOM:
                 break;
-        case IMB_CIPHER_CBC:
         case IMB_CIPHER_CBCS_1_9:
+                /* only AES-128 is implemented for CBCS */
+                if (key_len_in_bytes != UINT64_C(16)) {
+                        imb_set_errno(state, IMB_ERR_JOB_KEY_LEN);
+                        return 1;
+                }
+                break;
+        case IMB_CIPHER_CBC:
         case IMB_CIPHER_ECB:
         case IMB_CIPHER_CNTR:
         case IMB_CIPHER_CNTR_BITLEN:
@@ -430,6 +436,11 @@ is_job_invalid(IMB_MGR *state, const IMB_JOB *job, const IMB_CIPHER_MODE cipher_
                 }
                 if (key_len_in_bytes != UINT64_C(16) && key_len_in_bytes != UINT64_C(24) &&
                     key_len_in_bytes != UINT64_C(32)) {
+                        imb_set_errno(state, IMB_ERR_JOB_KEY_LEN);
+                        return 1;
+                }
+                /* only AES-128 is implemented for CBCS */
+                if (cipher_mode == IMB_CIPHER_CBCS_1_9 && key_len_in_bytes != UINT64_C(16)) {
                         imb_set_errno(state, IMB_ERR_JOB_KEY_LEN);
                         return 1;
                 }
